@@ -408,6 +408,50 @@ def _unmodelled(k):
     return r
 
 
+def _special_point(ca):
+    """for a condition atom that singles out ONE value of ONE input symbol: (symbol id, value, condition is true AT the special value)
+    truthy(x): special value 0, true away from it; eq(x + c, d): special value d - c, true at it; ne: the reverse; not(...) flips"""
+    if ca.kind != 'fn':
+        return None
+    if ca.name == 'not' and len(ca.args) == 1 and isinstance(ca.args[0], Rat):
+        inner = None
+        c0 = ca.args[0]
+        if len(c0.num.t) == 1 and c0.den.is_const():
+            (mm, cc), = c0.num.t.items()
+            if len(mm[0]) == 1 and not mm[1] and mm[0][0][1] == 1:
+                inner = TABLE.atoms[mm[0][0][0]]
+        r = _special_point(inner) if inner is not None else None
+        return None if r is None else (r[0], r[1], not r[2])
+    if ca.name == 'truthy' and len(ca.args) == 1 and isinstance(ca.args[0], Rat):
+        e, target, at_special = ca.args[0], Fraction(0), False
+    elif ca.name in ('eq', 'ne') and len(ca.args) == 2 and all(isinstance(x, Rat) for x in ca.args):
+        e, target, at_special = ca.args[0] - ca.args[1], Fraction(0), ca.name == 'eq'
+    else:
+        return None
+    # e must be affine in exactly one free symbol: e = p*s + q with constants p != 0, q
+    syms = [k for k in e.atoms(deep=False) if TABLE.atoms[k].kind == 'sym' and TABLE.atoms[k].name != 'pi']
+    if len(syms) != 1 or not e.den.is_const() or len(e.atoms(deep=False)) != 1:
+        return None
+    sid = syms[0]
+    p = q = Fraction(0)
+    dc = e.den.const_value()
+    for (mono, ex), c in e.num.t.items():
+        if ex:
+            return None
+        v = c / dc
+        if not v.is_real():
+            return None
+        if mono == ():
+            q = v.re
+        elif mono == ((sid, 1),):
+            p = v.re
+        else:
+            return None
+    if p == 0:
+        return None
+    return sid, (target - q) / p, at_special
+
+
 def decide_equal(a, b, budget=None, _why=None):
     """'equal' | 'different' | 'unknown'.
     1. folded comparison (definition atoms are names);
@@ -525,9 +569,43 @@ def decide_equal(a, b, budget=None, _why=None):
                 if _unmodelled(k):
                     return 'unknown'
                 at_ = TABLE.atoms[k]
-                if at_.kind == 'fn' and at_.name == 'ite':
-                    # a conditional value on one side only is not an independent generator: ite(c, X, X') IS X when both arms are;
-                    # the caller splits on the condition (symcheck.case_split)
+                if at_.kind == 'fn' and at_.name == 'ite' and len(at_.args) == 3 and all(isinstance(x_, Rat) for x_ in at_.args):
+                    # a conditional value on one side only is not automatically an independent generator:
+                    #  - both arms the same function: the conditional IS that function (ite(c, X, X') with X' = X) - replace and decide again;
+                    #  - an ordering test (<, <=, >, >=) with definitely different arms: a genuinely piecewise value, different from any
+                    #    unconditional form on a region of positive measure - an independent generator;
+                    #  - an equality / truthiness test: the special arm matters at single points only - the caller splits on it (case_split)
+                    ra_ = decide_equal(at_.args[1], at_.args[2], budget)
+                    if ra_ == 'equal':
+                        m_ = {k: at_.args[1]}
+                        return decide_equal(_subst_top(a, m_), _subst_top(b, m_), budget, _why)
+                    ca_ = None
+                    c0_ = at_.args[0]
+                    if len(c0_.num.t) == 1 and c0_.den.is_const():
+                        (mm_, cc_), = c0_.num.t.items()
+                        if len(mm_[0]) == 1 and not mm_[1]:
+                            ca_ = TABLE.atoms[mm_[0][0][0]]
+                    if ra_ == 'different' and ca_ is not None and ca_.kind == 'fn' and ca_.name in ('lt', 'le', 'gt', 'ge'):
+                        continue
+                    sp_ = _special_point(ca_) if ca_ is not None else None
+                    if sp_ is not None and _DECIDE_DEPTH[0] < 12:
+                        # an equality / truthiness test of one input: the arm taken away from the special value must agree everywhere,
+                        # the other arm at the special value
+                        sid_, val_, special_is_true = sp_
+                        generic_arm = at_.args[2] if special_is_true else at_.args[1]
+                        special_arm = at_.args[1] if special_is_true else at_.args[2]
+                        rg_ = decide_equal(subst(a, {k: generic_arm}), subst(b, {k: generic_arm}), budget)
+                        if rg_ == 'different':
+                            return 'different'
+                        if rg_ == 'equal':
+                            try:
+                                pa_ = subst(subst(a, {k: special_arm}), {sid_: C(val_)})
+                                pb_ = subst(subst(b, {k: special_arm}), {sid_: C(val_)})
+                            except ZeroDivisionError:
+                                return 'unknown'
+                            rs_ = decide_equal(pa_, pb_, budget)
+                            if rs_ in ('equal', 'different'):
+                                return rs_
                     return 'unknown'
             if _why is not None and not _why:
                 _why.append((a, b))
